@@ -1,5 +1,5 @@
 (* Properties_C04.v — statements only (C04: total, outcome trichotomy, end <= len, reuse). *)
-From JC Require Import Base Value TokModel TokFrame TokStack TokTotal TokReset.
+From JC Require Import Base Value TokModel TokFrame TokStack TokTotal TokReset TokDead TokDead2.
 Local Open Scope Z_scope.
 
 (* for ANY bytes, flags, depth limit and prior state: exactly one of (value, success),
@@ -54,8 +54,27 @@ Theorem C04_reset_levels_as_new : forall t,
 Proof. exact reset_levels_as_new. Qed.
 Print Assumptions C04_reset_levels_as_new.
 
-(* ... and the fields that reset leaves alone (pb, st_pos, is_double, ucs_char, quote_char) are
-   dead: every token start overwrites them before reading them; high_surrogate is cleared *)
+(* ... and, for ALL byte strings and ALL prior states (whatever the parser went through before
+   the reset): a call on the reset parser gives the same value, status and end position as the
+   call on a new parser with the same limit and flags.  The fields reset does not touch (pb,
+   st_pos, is_double, ucs_char, quote_char) are dead: every state that reads one of them is
+   entered through a transition that writes it first (step1_dv); high_surrogate is cleared. *)
+Theorem C04_reset_is_new : forall sb t bytes,
+  match parse_ex sb (new_like t) bytes, parse_ex sb (tok_reset t) bytes with
+  | PR t1 r1, PR t2 r2 => r1 = r2 /\ err t1 = err t2 /\ char_offset t1 = char_offset t2
+  | PRFuel, PRFuel => True
+  | _, _ => False
+  end.
+Proof. exact reset_is_new. Qed.
+Print Assumptions C04_reset_is_new.
+
+Theorem C04_new_like_is_new : forall t, 1 <= max_depth t ->
+  exists tn, tok_new (max_depth t) (strict t) (allow_trailing t) (validate_utf8 t) = Some tn /\
+             new_like t = set_off tn (char_offset t).
+Proof. exact new_like_is_new. Qed.
+Print Assumptions C04_new_like_is_new.
+
+(* the same on concrete stale states, evaluated inside Coq *)
 Theorem C04_reset_is_new_examples : reset_examples_ok = true.
 Proof. exact reset_examples. Qed.
 Print Assumptions C04_reset_is_new_examples.
